@@ -1,7 +1,7 @@
 (* C08 - the seen-stores: executable model.  Proofs are in SeenProofs.v.
 
    internal/pkg/preprocessor/seencheck/seencheck.go   local store (LevelDB) and SeencheckItem
-   internal/pkg/source/hq/seencheck.go                crawl-HQ variant (one round trip)
+   internal/pkg/source/hq/seencheck.go                crawl-HQ variant (one round trip; batches: see the end)
    internal/pkg/preprocessor/preprocessor.go          preprocess: dedupe, seencheck, filter, requests
 
    URLs are interned canonical strings (what URL.String() returns): [nurl] of Tree/Item.v.  The
@@ -242,3 +242,52 @@ Definition hq_step (S : list N) (t : item) : list N * item :=
          end
   end.
 Definition hq_run (S : list N) (h : list item) : list N := fold_left (fun S t => fst (hq_step S t)) h S.
+
+(* ---- the request in batches ---------------------------------------------------------- *)
+(* The seencheck of one pass may be put to the crawl HQ in several requests (batches of
+   --hq-batch-size texts, or any other way of cutting the request).  An exchange is one batch
+   with the reply it got; the batches of one pass, in order, make up the request: a partition.
+   What the pass learns from its exchanges: an error when a batch failed, else the answers of
+   all batches, one after the other. *)
+Fixpoint hq_collect (replies : list hq_reply) : hq_reply :=
+  match replies with
+  | [] => HROk []
+  | HRErr :: _ => HRErr
+  | HROk a :: r => match hq_collect r with HRErr => HRErr | HROk b => HROk (a ++ b) end
+  end.
+
+Definition hq_exchange := (list (N * kind) * hq_reply)%type.
+
+(* hq.SeencheckItem given the exchanges it had with the HQ, whatever the partition *)
+Definition hq_seencheck_ex (ex : list hq_exchange) (t : item) : hq_outcome * item :=
+  hq_seencheck (fun _ => hq_collect (map snd ex)) t.
+
+(* the reference HQ asked batch after batch *)
+Fixpoint hq_ref_parts (S : list N) (parts : list (list (N * kind))) : list hq_exchange * list N :=
+  match parts with
+  | [] => ([], S)
+  | p :: r => let '(rep, S1) := hq_ref S p in
+              let '(ex, S2) := hq_ref_parts S1 r in ((p, rep) :: ex, S2)
+  end.
+
+(* one pass against the reference HQ, the request cut by [split] *)
+Definition hq_step_parts (split : list (N * kind) -> list (list (N * kind))) (S : list N) (t : item) : list N * item :=
+  match max_depth t with
+  | 0 => (S, t)
+  | _ => match hq_sent t with
+         | [] => (S, t)
+         | sent => let '(ex, S') := hq_ref_parts S (split sent) in
+                   (S', snd (hq_seencheck_ex ex t))
+         end
+  end.
+
+(* batches of [b] entries, the last one shorter (fuel: the length of the list is enough) *)
+Fixpoint chunks_f {A : Type} (fuel b : nat) (l : list A) : list (list A) :=
+  match fuel with
+  | 0 => []
+  | S f => match l with
+           | [] => []
+           | _ => firstn b l :: chunks_f f b (skipn b l)
+           end
+  end.
+Definition chunks {A : Type} (b : nat) (l : list A) : list (list A) := chunks_f (length l) b l.
